@@ -267,7 +267,7 @@ func (f *fixture) get(rid string) (string, bool, error) {
 	}
 	_, resp := f.rn.Replies(reply)
 	if len(resp) != 1 {
-		return "", false, fmt.Errorf("get %s: %d responses", rid, len(resp))
+		return "", false, svc.Behaviour(fmt.Sprintf("get %s: %d responses", rid, len(resp)))
 	}
 	var p struct {
 		Result *struct{ Model, Collection json.RawMessage }
@@ -282,7 +282,7 @@ func (f *fixture) get(rid string) (string, bool, error) {
 	case p.Result != nil && p.Result.Collection != nil:
 		return string(p.Result.Collection), true, nil
 	}
-	return "", false, fmt.Errorf("get %s: %s", rid, resp[0])
+	return "", false, svc.Behaviour(fmt.Sprintf("a get of %s is answered with %s: neither the resource nor system.notFound", rid, resp[0]))
 }
 
 func jsonEq(a, b string) bool { return gen.JSONEqual([]byte(a), []byte(b)) }
@@ -300,7 +300,7 @@ func run(c Case) (msg string, nontrivial bool) {
 	f := &fixture{cfg: c.Cfg, dir: bdb.TempDir("c20")}
 	defer os.RemoveAll(f.dir)
 	if err := f.open(); err != nil {
-		return "VERIF-INCONCLUSIVE: " + err.Error(), false
+		return svc.Verdict(err), false
 	}
 	defer f.close()
 	model := map[string]string{} // rid -> stored JSON text
@@ -379,7 +379,7 @@ func run(c Case) (msg string, nontrivial bool) {
 		case "get":
 			got, ok, err := f.get(st.RID)
 			if err != nil {
-				return "VERIF-INCONCLUSIVE: " + err.Error(), nontrivial
+				return svc.Verdict(err), nontrivial
 			}
 			want, wok := servedWant(st.RID)
 			if ok != wok || (ok && !jsonEq(got, want)) {
@@ -676,7 +676,7 @@ func run(c Case) (msg string, nontrivial bool) {
 		// after every step: the served value equals the fold
 		got, ok, err := f.get(st.RID)
 		if err != nil {
-			return "VERIF-INCONCLUSIVE: " + err.Error(), nontrivial
+			return svc.Verdict(err), nontrivial
 		}
 		want, wok := servedWant(st.RID)
 		if ok != wok || (ok && !jsonEq(got, want)) {
@@ -699,7 +699,7 @@ func run(c Case) (msg string, nontrivial bool) {
 	for _, rid := range rids {
 		got, ok, err := f.get(rid)
 		if err != nil {
-			return "VERIF-INCONCLUSIVE: " + err.Error(), nontrivial
+			return svc.Verdict(err), nontrivial
 		}
 		want, wok := servedWant(rid)
 		if ok != wok || (ok && !jsonEq(got, want)) {
